@@ -219,6 +219,7 @@ func init() {
 			complete := true
 			eval := func(c c17Case, size int, nontriv bool) {
 				r.Evals.Add(1)
+				r.Journal(c)
 				r.Transitions.Add(2)
 				r.Traces.Add(1)
 				ok, sig, detail := c17Eval(c)
